@@ -32,21 +32,22 @@ def function_level_vectors(ctx, family):
                        extra_replay=["--nv", nv, "--seed", ctx.seed], timeout=1500)
 
 
-def cnf_vectors(ctx, which):
+def cnf_vectors(ctx, targets):
     """spec -> impl: every CNF of a positional family with its models (GenCnf.tla) compiled by the real compilers: bottom-up BDD
     (every order, both caches; every 4th CNF also under EVERY partial assignment: with_assignments = compile + condition_model, same
-    diagram), bottom-up SDD (right-/left-linear and split vtrees, compression on/off), top-down (every order, both node stores)."""
+    diagram), bottom-up SDD (right-/left-linear and split vtrees, compression on/off; "sdd-dtree": one builder per CNF over the vtree
+    derived from the CNF's own dtree, 3 elimination orders), top-down (every order, both node stores)."""
     fams = [("Pos3", 3, 8 if ctx.quick else 1, "<= 3 clauses of width <= 3 over 3 variables"),
             ("PosT", 3, 16 if ctx.quick else 2, "<= 3 clauses with repeated / complementary literals and an empty clause")]
     if not ctx.quick:
         fams.append(("Pos4", 4, 32, "<= 4 clauses of width <= 2 over 4 variables"))
-    if which == "topdown":
+    if targets == ["topdown"]:
         fams = [(f, nv, s * (2 if ctx.quick else 1), w) for f, nv, s, w in fams]
     for fam, nv, sample, what in fams:
-        cfg = mkcfg(ctx, "GenCnf_%s_%s.cfg" % (fam, which), "SPECIFICATION Spec\nCONSTANTS\n  NV = %d\n  Family <- %s\n  Sample = %d\n  Seed = %d\nINVARIANT Emit\nCHECK_DEADLOCK FALSE\n"
+        cfg = mkcfg(ctx, "GenCnf_%s_%s.cfg" % (fam, targets[0]), "SPECIFICATION Spec\nCONSTANTS\n  NV = %d\n  Family <- %s\n  Sample = %d\n  Seed = %d\nINVARIANT Emit\nCHECK_DEADLOCK FALSE\n"
                     % (nv, fam, sample, ctx.seed))
-        gen_and_replay(ctx, "GenCnf", cfg, "cnfvec", "%s compilation of %s CNFs: %s" % (which, "all" if sample == 1 else "1/%d of the" % sample, what),
-                       extra_replay=["--nv", nv, "--which", which, "--seed", ctx.seed], timeout=2400)
+        gen_and_replay(ctx, "GenCnf", cfg, "cnfvec", "%s compilation of %s CNFs: %s" % ("/".join(targets), "all" if sample == 1 else "1/%d of the" % sample, what),
+                       extra_replay=[["--nv", nv, "--which", t, "--seed", ctx.seed] for t in targets], timeout=2400)
 
 
 ORDERS3 = ["123", "132", "213", "231", "312", "321"]
@@ -199,8 +200,7 @@ def C04(ctx):
 def C05(ctx):
     ctx.assumptions += ["CNF / expression / plan semantics = EvalCnf / EvalExpr of spec/BoolFn.tla evaluated by TLC",
                         "plans derived from DTree::from_cnf are logged as trees: TLC evaluates the plan itself"]
-    cnf_vectors(ctx, "bdd")
-    cnf_vectors(ctx, "sdd")
+    cnf_vectors(ctx, ["bdd", "sdd", "sdd-dtree"])
     _bdd_family(ctx, "c05", "TraceBdd_C05.cfg")
     _sdd_family(ctx, "c05", "TraceSdd_C05.cfg", nq=4, nt=24)
 
@@ -338,7 +338,7 @@ def C06(ctx):
     # design level: topdown_h + compile_cnf_topdown over the Watched SAT model compute exactly EvalCnf, and the
     # component cache (keyed by the residual) never changes the result - all CNFs of the family x all 6 orders
     model_check(ctx, "MC_TopDown", "MC_TopDown.cfg", "TopDownAlgo exact + cache-transparent: 10 hand-picked CNFs x 6 orders", workers=4)
-    cnf_vectors(ctx, "topdown")
+    cnf_vectors(ctx, ["topdown"])
     model_check(ctx, "MC_TopDown", "MC_TopDown_all2.cfg", "all 676 two-clause CNFs over 3 variables x 6 orders", workers=8, timeout=1200)
     if not ctx.quick:
         model_check(ctx, "MC_TopDown", "MC_TopDown_all3.cfg", "all 10 400 three-clause CNFs over 3 variables x 6 orders", workers=16, timeout=3000, xmx="8g")
